@@ -388,8 +388,8 @@ func ValidNamesSplit(s string, sep ...byte) []string {
 			continue
 		}
 
-		// 判断单引号结束
-		if isParseSingleQuotes && stack.IsEqualLastVal(v) {
+		// 判断单引号结束, 被转义的单引号("\'")属于内容, 如: re='^a\'b,c$'
+		if isParseSingleQuotes && stack.IsEqualLastVal(v) && s[i-1] != '\\' {
 			stack.Pop()
 			isParseSingleQuotes = false
 			continue
